@@ -16,7 +16,8 @@ ROOT = cf.ROOT
 
 # which suites decide which property, per tier
 PLAN = {
-    "C01": {"quick": ["struct3", "struct3c", "seg13"], "thorough": ["struct3", "struct3c", "struct4", "seg13", "seg22", "seg3d"]},
+    "C01": {"quick": ["struct3", "struct3z", "seg13z"],
+            "thorough": ["struct3", "struct3c", "struct3z", "struct4", "seg13", "seg13z", "seg22", "seg3d", "feat13"]},
     "C03": {"quick": ["struct3"], "thorough": ["struct3", "struct4", "seg13"]},
     "C04": {"quick": ["struct3"], "thorough": ["struct3", "struct4", "seg13"]},
     "C05": {"quick": ["struct3"], "thorough": ["struct3", "struct4", "seg13"]},
@@ -24,6 +25,7 @@ PLAN = {
     "C07": {"quick": ["seg13", "seg3d"], "thorough": ["seg13", "seg22", "seg3d", "seg13n"]},
     "C08": {"quick": ["seg13", "seg3d"], "thorough": ["seg13", "seg22", "seg3d", "seg13n"]},
     "C09": {"quick": ["seg13", "seg3d"], "thorough": ["seg13", "seg22", "seg3d", "seg13n"]},
+    "C10": {"quick": ["featns", "feat13"], "thorough": ["featns", "feat13", "feat22"]},
     "C11": {"quick": ["struct3", "seg13"], "thorough": ["struct3", "struct3c", "struct4", "seg13", "seg22"]},
     "C20": {"quick": ["struct3", "seg13"], "thorough": ["struct3", "struct4", "seg13"]},
 }
@@ -37,6 +39,7 @@ NONTRIVIAL_RULE = {
     "C07": "accepted call that changes the segmentation array",
     "C08": "accepted call that changes the segmentation array",
     "C09": "accepted call that changes the segmentation array of tracks with at least one edge",
+    "C10": "enable/disable call, attribute update of a managed key, or accepted edit while some available feature is disabled",
     "C11": "refused edit call (any exception)",
     "C20": "edit call, accepted or refused (emission list recorded through the public refresh signal)",
 }
